@@ -847,6 +847,20 @@ func (st *State) unop(x *ssa.UnOp) Value {
 			switch types.Unalias(x.Type()).Underlying().(type) {
 			case *types.Signature, *types.Pointer, *types.Interface:
 				r.Origin = st.fieldOrigin(p)
+				// func-typed parameter of the function: spec key <function>.param.<name> ("fieldspec F.param.cb(...)")
+				if _, isSig := types.Unalias(x.Type()).Underlying().(*types.Signature); isSig && r.Origin == "" && p.Cell != nil && len(p.Path) == 0 {
+					for _, pv := range st.frame.fn.Params {
+						if pv.Name() == p.Cell.Name {
+							fk := st.eng().ld.keyOf[st.frame.fn]
+							if fk == "" {
+								fk = FuncKey(st.frame.fn)
+							}
+							if k := fk + ".param." + pv.Name(); st.eng().specs.Funcs[k] != nil {
+								r.Origin = k
+							}
+						}
+					}
+				}
 			}
 		}
 		return r
@@ -1288,7 +1302,7 @@ func (st *State) concat(a, b Term) Term {
 	la, lb := StrLen(a), StrLen(b)
 	st.assume(Forall([]Term{i}, Implies(And(Le(IntLit(0), i), Lt(i, la)), Eq(Select(arr, i), Select(StrArr(a), Ix(StrOff(a), i))))))
 	st.assume(Forall([]Term{i}, Implies(And(Le(IntLit(0), i), Lt(i, lb)), Eq(Select(arr, Ix(la, i)), Select(StrArr(b), Ix(StrOff(b), i))))))
-	return MkStr4(arr, IntLit(0), Add(la, lb), IntLit(1))
+	return MkStr4(arr, IntLit(0), Add(la, lb), IntLit(2)) // own 2: heap memory nobody else holds
 }
 
 func (st *State) convert(v Value, T types.Type, pos token.Pos) Value {
@@ -1320,7 +1334,7 @@ func (st *State) convert(v Value, T types.Type, pos token.Pos) Value {
 		el := elemOf(from)
 		name, sort := e.memName(el)
 		m := st.heapGet(name, sort)
-		return Value{T: T, Tm: MkStr4(Select(m, SlRef(v.Tm)), SlOff(v.Tm), SlLen(v.Tm), IntLit(1))}
+		return Value{T: T, Tm: MkStr4(Select(m, SlRef(v.Tm)), SlOff(v.Tm), SlLen(v.Tm), IntLit(2))}
 	case isSlice(T) && isString(from):
 		el := elemOf(T)
 		ref := st.newRef()
